@@ -338,6 +338,31 @@ def stepConn (w : World) (c : Conn) (ws : List String) : Option (World × String
           let s := s.cloneStreamRef key
           let w := { w with sr := some sr, slots := w.slots ++ [{ key := key, sid := sid, send := true, respFut := true }] }
           some (finish w (withStreams c s) s!"ok:{w.slots.length - 1}:{sid}")
+  | ["cn_reqc", eos, method, path, extra] =>
+    -- a request through a fresh clone of the `SendRequest` handle that is dropped right afterwards
+    -- (`sr.clone()` per task): the only way to have several requests waiting in `pending_open`
+    match parseExtra extra with
+    | none => none
+    | some ex =>
+      match w.sr with
+      | none => some (finish w c "nohandle")
+      | some _ =>
+        let pseudo := if method == "CONNECT" then [field ":method" method, field ":authority" "example.com"]
+          else [field ":method" method, field ":scheme" "http", field ":authority" "example.com",
+                field ":path" (if path.isEmpty then (if method == "OPTIONS" then "*" else "/") else path)]
+        let fields := pseudo ++ ex
+        match c.streams.cloneHandle.sendRequest (method == "HEAD") fields (eos == "1") none with
+        | (s, .error e) => some (finish w (withStreams c s.dropHandle) ("err:" ++ renderApiErr e))
+        | (s, .ok (key, isFull)) =>
+          let sid := (s.stream key).id
+          let pend := (s.stream key).isPendingOpen && isFull
+          let s := if pend then s.cloneStreamRef key else s
+          let s := s.cloneStreamRef key
+          -- drop of the clone: `inner` (the `Streams` handle) first, then `pending`
+          let s := s.dropHandle
+          let s := if pend then s.dropStreamRef key else s
+          let w := { w with slots := w.slots ++ [{ key := key, sid := sid, send := true, respFut := true }] }
+          some (finish w (withStreams c s) s!"ok:{w.slots.length - 1}:{sid}")
   | ["cn_ready"] =>
     match w.sr with
     | none => some (finish w c "nohandle")
